@@ -280,7 +280,7 @@ func (sc *i1Scenario) oracles(extraAddrs ...string) (addrs, prefixes, rewrites, 
 func (sc *i1Scenario) pats(q *rules.Request) string {
 	var pats []string
 	for _, f := range sc.nets {
-		if p := wpat(f, q.URL, q.Hostname); p != "" {
+		if p := wpat(f, q.URL, q.Hostname); p != "" && !nSeenPat(&pats, p) {
 			pats = append(pats, p)
 		}
 	}
